@@ -17,6 +17,11 @@ except ImportError:
         return code
 
 
+# Largest magnitude Nix accepts in an integer literal (signed 64-bit; a
+# negative number is written as the negation of a positive literal).
+_MAX_INTEGER_LITERAL = 2**63 - 1
+
+
 @dataclass(kw_only=True, slots=True, weakref_slot=True)
 class NixExpression:
     """Base class for all Nix objects."""
@@ -194,6 +199,11 @@ def coerce_expression(value: Any) -> NixExpression:
 
         return Primitive(value=value)
     if isinstance(value, int):
+        if abs(value) > _MAX_INTEGER_LITERAL:
+            raise ValueError(
+                "Unsupported expression type: integer literal must be within "
+                "Nix's signed 64-bit range"
+            )
         from nix_manipulator.expressions.primitive import Primitive
 
         return Primitive(value=value)
